@@ -628,11 +628,81 @@ func (e *ext) c06RestoreFacts(dir string) {
 	fmt.Fprintf(&e.out, "/-- functions calling subtractAllocated(…, true): clamped at zero -/\ndef subtractClampedCallers : List String := %s\n", c06Strs(e.c06Enclosing(dir, callWith("true"))))
 }
 
+// c06PreemptFacts (round 6): the preemption dry run.  (1) which functions call <..Alloc>.Accumulate / <..Alloc>.Subtract
+// (the model's removePodDry = Accumulate, addPodDry = Subtract).  (2) for preemptibleAlloc.Accumulate / Subtract: the
+// number of assignments to the CPU argument or to the field it is cancelled against (Subtract: cpusToAdd, Accumulate:
+// cpusToRemove) whose right-hand side reads the OTHER of the two after that other was already overwritten in the
+// function.  0 = both updates are computed from the values the function was entered with (the overlap is taken once,
+// before either write) - the shape the model and reprieve_inverse are about; the statement order of the two updates
+// is irrelevant then.
+func (e *ext) c06PreemptFacts(dir string) {
+	acc := e.c06Enclosing(dir, func(n ast.Node) bool { return c06CallOn(n, "Alloc", "Accumulate") })
+	sub := e.c06Enclosing(dir, func(n ast.Node) bool { return c06CallOn(n, "Alloc", "Subtract") })
+	fmt.Fprintf(&e.out, "/-- functions calling <preemptibleAlloc>.Accumulate -/\ndef preemptAccumulateCallers : List String := %s\n", c06Strs(acc))
+	fmt.Fprintf(&e.out, "/-- functions calling <preemptibleAlloc>.Subtract -/\ndef preemptSubtractCallers : List String := %s\n", c06Strs(sub))
+	for _, f := range [][3]string{{"Subtract", "cpusToAdd", "preemptSubtractStaleReads"}, {"Accumulate", "cpusToRemove", "preemptAccumulateStaleReads"}} {
+		fd := e.funcDecl(dir, "preemptibleAlloc", f[0])
+		if fd == nil || fd.Body == nil || fd.Recv == nil || len(fd.Recv.List) == 0 || len(fd.Recv.List[0].Names) == 0 ||
+			fd.Type.Params == nil || len(fd.Type.Params.List) == 0 || len(fd.Type.Params.List[0].Names) == 0 {
+			e.fail("%s: func (preemptibleAlloc) %s(cpus, ...) not found", dir, f[0])
+			continue
+		}
+		arg := fd.Type.Params.List[0].Names[0].Name
+		field := fd.Recv.List[0].Names[0].Name + "." + f[1]
+		tracked := map[string]bool{arg: true, field: true}
+		written := map[string]bool{}
+		stale, writes := 0, 0
+		ast.Inspect(fd.Body, func(n ast.Node) bool {
+			a, ok := n.(*ast.AssignStmt)
+			if !ok {
+				return true
+			}
+			lhs := map[string]bool{}
+			for _, l := range a.Lhs {
+				lhs[c06Expr(l)] = true
+			}
+			target := false
+			for v := range tracked {
+				if lhs[v] {
+					target = true
+				}
+			}
+			if target {
+				writes++
+				reads := map[string]bool{}
+				for _, r := range a.Rhs {
+					ast.Inspect(r, func(m ast.Node) bool {
+						if x, ok := m.(ast.Expr); ok {
+							if name := c06Expr(x); tracked[name] {
+								reads[name] = true
+							}
+						}
+						return true
+					})
+				}
+				for v := range reads {
+					if !lhs[v] && written[v] {
+						stale++
+					}
+				}
+			}
+			for v := range lhs {
+				if tracked[v] {
+					written[v] = true
+				}
+			}
+			return true
+		})
+		fmt.Fprintf(&e.out, "/-- preemptibleAlloc.%s: (writes to the CPU argument / %s, of which read the other one after it was overwritten) -/\ndef %s : Nat × Nat := (%d, %d)\n", f[0], f[1], f[2], writes, stale)
+	}
+}
+
 func init() {
 	extractors["C06"] = func(e *ext) {
 		d := "pkg/scheduler/plugins/nodenumaresource"
 		e.c06CommitSites()
 		e.c06RestoreFacts(d)
+		e.c06PreemptFacts(d)
 		e.c06GetOrCreate(d)
 		e.c06EventGlue(d)
 		e.c06Sections(d, "resourceManager", "Update", "rmUpdate")
